@@ -1202,4 +1202,14 @@ theorem tie_rotation_spacings (o : Ori) (conv : List Char) (sf rh : Bool) (ps : 
 example : (createRotationSrc exPlane.o ['D', 'R'] true false (.seq [1 / 2, 3 / 4]) 2).isOk = true ∧
     createRotationSrc exPlane.o ['D', 'R'] true false (.seq [1 / 2, 0]) 2 = .error .value := by decide +kernel
 
+
+/-- `_normalize_pixel_index_convention` / `_normalize_patient_orientation`: required length (2 / 3), members of the enum (T13e), exactly one
+letter of each regenerated exclusive pair (L/R, U/D resp. L/R, A/P, F/H) - bridge, TC10g -/
+theorem tie_normalisers (c : List Char) :
+    normConvention c = normConventionSrc c ∧ normOrientation c = normOrientationSrc c :=
+  ⟨normConvention_uses_source c, normOrientation_uses_source c⟩
+
+example : normConventionSrc ['U', 'L'] = .ok ('U', 'L') ∧ normConventionSrc ['R', 'L'] = .error .value ∧
+    normOrientationSrc ['F', 'P', 'L'] = .ok ['F', 'P', 'L'] ∧ normOrientationSrc ['L', 'R', 'H'] = .error .value := by decide
+
 end HdVerif.C10
